@@ -1319,3 +1319,91 @@ pub fn case_shape(c: &Case) -> u64 {
     d.u64(c.q);
     d.0
 }
+
+// ------------------------------------------------------------------------------------------
+// neighbours: the valid requests closest to a faulty one
+// ------------------------------------------------------------------------------------------
+
+/// Requests that agree with `c` in everything but the one thing that makes `c` invalid: the same
+/// stream with the bad record(s) replaced by an ordinary value, the same stream padded to a
+/// sufficient / equal length, the same data with an ordinary quantile, and for the counters
+/// (n, k) the pairs that share two of {k, n, |n - k|} with the bad pair. A process that served
+/// such a neighbour immediately before `c` must still answer `c` as if it were its first
+/// request: whatever the library remembers between calls has to identify a request completely.
+pub fn neighbours_of(c: &Case) -> Vec<Case> {
+    let mut out: Vec<Case> = Vec::new();
+    let positive = matches!(c.entry, Entry::GeoCi | Entry::GeoCiTrait | Entry::HarmCi | Entry::HarmMeanCiTrait | Entry::GeoInc | Entry::HarmInc | Entry::GeoHuge | Entry::HarmHuge);
+    let enc = |x: f64| -> Bits {
+        match c.flt {
+            Flt::F32 => (x as f32).to_bits() as u64,
+            _ => x.to_bits(),
+        }
+    };
+    let ok = |b: Bits| -> bool {
+        let v = crate::tape::decode(b, c.flt);
+        v.is_finite() && (!positive || v > 0.0)
+    };
+    let mut push = |n: Case| {
+        if (n.a != c.a || n.b != c.b || n.n != c.n || n.k != c.k || n.q != c.q) && !out.iter().any(|o: &Case| o.a == n.a && o.b == n.b && o.n == n.n && o.k == n.k && o.q == n.q) {
+            out.push(n);
+        }
+    };
+    let two_streams = !c.b.is_empty() || matches!(c.entry, Entry::PairedCi | Entry::PairedInc | Entry::PairedTuple | Entry::UnpairedCi | Entry::UnpairedInc | Entry::PairedHuge | Entry::UnpairedHuge);
+    if c.flt != Flt::Int && (!c.a.is_empty() || two_streams) {
+        // (1) bad records replaced, lengths untouched
+        let mut r = c.clone();
+        r.fault = "none".into();
+        for (i, x) in r.a.iter_mut().enumerate() {
+            if !ok(*x) {
+                *x = enc(1.5 + i as f64);
+            }
+        }
+        for (i, x) in r.b.iter_mut().enumerate() {
+            if !ok(*x) {
+                *x = enc(2.25 + i as f64);
+            }
+        }
+        push(r.clone());
+        // (2) padded to a sufficient and equal length
+        let want = r.a.len().max(r.b.len()).max(5);
+        while r.a.len() < want {
+            r.a.push(enc(1.25 * (r.a.len() + 1) as f64));
+        }
+        if two_streams {
+            while r.b.len() < want {
+                r.b.push(enc(0.75 * (r.b.len() + 2) as f64));
+            }
+        }
+        push(r);
+    }
+    // (3) an ordinary quantile / rate instead of the bad one
+    let q = f64::from_bits(c.q);
+    if !(q > 0.0 && q < 1.0) {
+        for nq in [0.5f64, 0.25] {
+            let mut r = c.clone();
+            r.fault = "none".into();
+            r.q = nq.to_bits();
+            if r.n < 12 && matches!(r.entry, Entry::QuantIndices | Entry::QuantStatsCi) {
+                r.n = 12;
+            }
+            push(r);
+        }
+    }
+    // (4) counter pairs sharing two of {k, n, |n - k|} with (n, k)
+    let (n, k) = (c.n, c.k);
+    let d = n.abs_diff(k);
+    let counters = matches!(c.entry, Entry::PropCi | Entry::PropWilson | Entry::PropZNormal | Entry::PropWilsonRatio | Entry::PropCiTrue | Entry::PropCiIf | Entry::PropStatsCi | Entry::PropIsSignificant | Entry::QuantIndices | Entry::QuantStatsCi);
+    // entries that materialise n items stay small
+    let cap = if matches!(c.entry, Entry::PropCi | Entry::PropWilson | Entry::PropZNormal | Entry::PropWilsonRatio | Entry::PropIsSignificant | Entry::QuantIndices) { u64::MAX } else { 10_000 };
+    for (nn, kk) in [(n.max(k), n.min(k)), (k.saturating_add(d), k), (n, d.min(n)), (n.saturating_add(k), k), (n.max(k).saturating_mul(2), n.min(k).max(d))] {
+        if counters && kk <= nn && (nn, kk) != (n, k) && nn > 0 && nn <= cap {
+            let mut r = c.clone();
+            r.fault = "none".into();
+            r.n = nn;
+            r.k = kk;
+            push(r);
+        }
+    }
+    out.truncate(6);
+    out
+}
